@@ -56,6 +56,34 @@ def attach_hooks(run):
     for cls in (M.SolidBody, M.SolidBodyNearlyIncompressible):
         attach.wrap_method(cls, "_vector", post=solid_post)
 
+    # shadow model of what the user asked for: constructor arguments, of which update() replaces the load value only
+    shadow = {}
+    LOADARG = {"SolidBodyForce": "values", "SolidBodyGravity": "gravity", "PointLoad": "values", "SolidBodyPressure": "pressure"}
+
+    def init_post(obj, arguments):
+        if getattr(obj, "_vmon_in_update", False):
+            return
+        shadow[id(obj)] = (obj, {k: (None if v is None else (np.array(v, float) if k != "field" and np.ndim(v) > 0 else v))
+                                 for k, v in arguments.items() if k != "field"})
+
+    def update_pre(self, args, kwargs):
+        object.__setattr__(self, "_vmon_in_update", True)
+
+    def update_post(self, args, kwargs, ctx, result, exc):
+        object.__setattr__(self, "_vmon_in_update", False)
+        if exc is None and id(self) in shadow and shadow[id(self)][0] is self:
+            v = args[0] if args else list(kwargs.values())[0]
+            shadow[id(self)][1][LOADARG[type(self).__name__]] = np.array(v, float)
+            run.seen("items.update-shadow")
+
+    for cls in (M.SolidBodyForce, M.SolidBodyGravity, M.PointLoad):
+        attach.wrap_init(cls, init_post)
+        attach.wrap_method(cls, "update", pre=update_pre, post=update_post)
+
+    def asked(obj):
+        ent = shadow.get(id(obj))
+        return ent[1] if ent is not None and ent[0] is obj else None
+
     def force_post(self, args, kwargs, ctx, result, exc):
         if exc is not None:
             return
@@ -71,6 +99,17 @@ def attach_hooks(run):
         got = r[:n].reshape(-1, d).sum(0)
         exp = expected[:d] * V
         lab = type(self).__name__
+        a = asked(self)
+        if a is not None:
+            fac = a["scale"] if lab == "SolidBodyForce" else a["density"]
+            val = a[LOADARG[lab]]
+            val = np.zeros(d) if val is None else np.asarray(val, float).ravel()
+            exp_user = float(fac) * val[:d] * V
+            run.compare("items.resultant", "item=%s clause=resultant-of-requested-load" % lab,
+                        maxabs(got - exp_user) / max(maxabs(exp_user), 1e-300), 1e-11,
+                        "%s: nodal forces do not sum to the density given at construction times the latest load value times the volume" % lab,
+                        unit="requested:" + lab, config=("requested", lab, type(f[0]).__name__),
+                        sample={"item": lab, "sum": got.tolist(), "requested rho*a*V": exp_user.tolist()})
         run.compare("items.resultant", "item=%s clause=resultant" % lab, maxabs(got - exp) / max(maxabs(exp), 1e-300), 1e-11,
                     "%s: nodal forces do not sum to density * acceleration * volume" % lab,
                     unit="resultant:" + lab, config=(lab, type(f[0]).__name__, len(f.fields)),
@@ -97,6 +136,21 @@ def attach_hooks(run):
         ref[self.points] += vals
         full = np.zeros(offs[-1])
         full[offs[k]: offs[k + 1]] = ref.ravel()
+        a = asked(self)
+        if a is not None and a.get("values") is not None:
+            k2 = a.get("apply_on", 0)
+            fl2 = f.fields[k2]
+            pts2 = np.asarray(a["points"]).astype(int)
+            ref2 = np.zeros(fl2.values.shape)
+            v2 = np.broadcast_to(np.asarray(a["values"], float), (len(np.atleast_1d(pts2)), fl2.dim)).copy()
+            if a.get("axisymmetric"):
+                v2 *= 2 * np.pi * f[0].region.mesh.points[pts2, 1].reshape(-1, 1)
+            np.add.at(ref2, pts2, v2)
+            full2 = np.zeros(offs[-1])
+            full2[offs[k2]: offs[k2 + 1]] = ref2.ravel()
+            run.compare("items.resultant", "item=PointLoad clause=requested-values", maxabs(r - full2) / max(maxabs(full2), 1e-300), 1e-15,
+                        "PointLoad: assembled vector differs from the latest requested values at the points, field and symmetry given at construction",
+                        unit="requested:PointLoad", config=("requested", "PointLoad", bool(a.get("axisymmetric")), k2))
         run.compare("items.resultant", "item=PointLoad clause=values", maxabs(r - full) / max(maxabs(full), 1e-300), 1e-15,
                     "PointLoad: assembled vector differs from its values at its points", unit="resultant:PointLoad",
                     config=("PointLoad", self.axisymmetric, k))
@@ -233,13 +287,29 @@ def case_loads(rep):
                 C01.random_state(rng, field)
                 d = field[0].dim
                 bvec = lambda: np.append(rng.standard_normal(d), 0.0) if kind == "axisymmetric" else rng.standard_normal(d)
-                fem.SolidBodyForce(field, values=bvec(), scale=float(rng.uniform(0.5, 2))).assemble.vector(field)
+                bf = fem.SolidBodyForce(field, values=bvec(), scale=float(rng.uniform(0.5, 2)))
+                bf.assemble.vector(field)
                 with warnings.catch_warnings():
                     warnings.simplefilter("ignore")
-                    fem.SolidBodyGravity(field, gravity=bvec(), density=float(rng.uniform(0.5, 2))).assemble.vector(field)
+                    bg = fem.SolidBodyGravity(field, gravity=bvec(), density=float(rng.uniform(0.5, 2)))
+                    bg.assemble.vector(field)
                 pts = rng.choice(mesh.npoints, 3, replace=False)
-                fem.PointLoad(field, pts, values=rng.standard_normal((1, d)), axisymmetric=kind == "axisymmetric").assemble.vector(field)
-                fem.PointLoad(field, pts, values=rng.standard_normal((3, d))).assemble.vector(field)
+                pl = fem.PointLoad(field, pts, values=rng.standard_normal((1, d)), axisymmetric=kind == "axisymmetric")
+                pl.assemble.vector(field)
+                pl2 = fem.PointLoad(field, pts, values=rng.standard_normal((3, d)))
+                pl2.assemble.vector(field)
+                # the load value is replaced (as a ramp does on every substep); everything else given at construction stays
+                for _ in range(2):
+                    bf.update(bvec())
+                    bf.assemble.vector(field)
+                    with warnings.catch_warnings():
+                        warnings.simplefilter("ignore")
+                        bg.update(bvec())
+                        bg.assemble.vector(field)
+                    pl.update(rng.standard_normal((1, d)))
+                    pl.assemble.vector(field)
+                    pl2.update(rng.standard_normal((3, d)))
+                    pl2.assemble.vector(field)
             for kind in ("hex", "planestrain", "axisymmetric"):
                 for closed in (True, False):
                     field, fb, mesh = C01.boundary_field(kind, rng, closed)
@@ -293,7 +363,7 @@ SPEC = {
         "balance:moment:SolidBody[FieldPlaneStrain]", "balance:force:SolidBody[FieldAxisymmetric]",
         "balance:force:SolidBody[Field,mixed]", "balance:moment:SolidBody[Field,mixed]",
         "balance:force:SolidBodyNearlyIncompressible[Field]", "balance:moment:SolidBodyNearlyIncompressible[Field]",
-        "balance:force:SolidBodyNearlyIncompressible[FieldAxisymmetric]", "resultant:SolidBodyForce", "resultant:SolidBodyGravity",
+        "balance:force:SolidBodyNearlyIncompressible[FieldAxisymmetric]", "resultant:SolidBodyForce", "resultant:SolidBodyGravity", "requested:SolidBodyForce", "requested:SolidBodyGravity", "requested:PointLoad",
         "resultant:PointLoad", "resultant:SolidBodyPressure[Field]:open", "resultant:SolidBodyPressure[Field]:closed",
         "resultant:SolidBodyPressure[Field]:closed-zero", "resultant:SolidBodyPressure[FieldPlaneStrain]:open",
         "resultant:SolidBodyPressure[FieldAxisymmetric]:open", "mass:symmetric", "mass:psd", "mass:total",
